@@ -2288,21 +2288,18 @@ fn eval_int_binop(
                 ));
             }
 
-            if rhs_num > u32::MAX as i64 {
-                return Err((
-                    RestoreValues(vec![lhs_value.clone(), rhs_value.clone()]),
-                    EvalError::Exception(ExceptionInfo {
-                        position: position.clone(),
-                        message: ErrorMessage(vec![Text(format!(
-                            "Exponent is too large, got {}.^ {}",
-                            lhs_value.display(env),
-                            rhs_value.display(env),
-                        ))]),
-                    }),
-                ));
-            }
+            // Exponents beyond u32 only have a representable result
+            // for bases 0, 1 and -1; anything else overflows.
+            let result = match u32::try_from(rhs_num) {
+                Ok(exponent) => lhs_num.checked_pow(exponent),
+                Err(_) => match lhs_num {
+                    0 | 1 => Some(lhs_num),
+                    -1 => Some(if rhs_num % 2 == 0 { 1 } else { -1 }),
+                    _ => None,
+                },
+            };
 
-            match lhs_num.checked_pow(rhs_num as u32) {
+            match result {
                 Some(num) => Value::new(Value_::Int(num)),
                 None => {
                     return Err((
